@@ -133,6 +133,8 @@ class ModuleInfo:
         self.src = src
         self.digest = hashlib.sha256(src.encode("utf-8", "replace")).hexdigest()
         self.tree = ast.parse(src, filename=path)
+        from .classnorm import expand_class_factories
+        expand_class_factories(self.tree)
         self.functions = {}    # qual -> FunctionInfo (all, incl. nested and methods)
         self.classes = {}      # name -> ClassInfo
         # top-level bindings: name -> ("module", modname) | ("attr", modname, attr)
@@ -432,3 +434,21 @@ def parents(node):
     while node is not None:
         yield node
         node = getattr(node, "_parent", None)
+
+
+def exec_order(root):
+    """id(node) -> position in a depth-first, field-order walk of `root`: the order in which straight-line code is
+    evaluated, independent of line numbers (inlined helper bodies keep the line numbers of the helper)."""
+    order = {}
+
+    def go(n):
+        order[id(n)] = len(order)
+        for c in ast.iter_child_nodes(n):
+            go(c)
+    go(root)
+    return order
+
+
+def precedes(root, a, b):
+    o = exec_order(root)
+    return o.get(id(a), -1) < o.get(id(b), -1)
